@@ -64,6 +64,7 @@ func init() {
 	reg("C09", "exploration", true, 40000, 40, 1500000, 300, 3)
 	reg("C11", "exploration", false, 100000, 30, 3000000, 240, 3)
 	reg("C13", "fault_enumeration", false, 60000, 30, 2000000, 240, 3)
+	reg("C05", "exploration", false, 100000, 30, 3000000, 240, 3)
 	reg("C04", "exploration", false, 100000, 30, 4000000, 240, 3)
 }
 
